@@ -628,6 +628,9 @@ class Messenger(Connection):
                 msgcls = messages.MessageHead
             else:
                 msgcls = contact.Head
+                if len(self.__rx_buf) < 6:
+                    # partial contact header, wait for the rest
+                    return
 
             # Probe for full message (by reading back encoded data)
             try:
